@@ -185,14 +185,15 @@ theorem Stack_Push_eq (s : List Nat) (v : Nat) : (Stack_Push s v).map List.rever
   simp [Stack_Push, lifoPush]
 
 theorem Stack_Pop_eq (s : List Nat) : (Stack_Pop s).map (fun r => (r.1.reverse, r.2)) = lifoPop s.reverse := by
-  unfold Stack_Pop Stack_Len
-  rw [← List.reverse_reverse s]
-  cases s.reverse with
-  | nil => simp [index, lifoPop]
+  -- the model's side first: the stack as the reversed list, empty or not; then the translated side is only evaluated
+  -- (whatever names the Go code gives to `len(*c)` or `len(*c) - 1`)
+  obtain ⟨l, rfl⟩ : ∃ l, s = l.reverse := ⟨s.reverse, by simp⟩
+  cases l with
+  | nil => simp [Stack_Pop, Stack_Len, index, sliceTo, lifoPop]
   | cons a l =>
     have h1 : ¬ ((l.length : Int) < 0) := by omega
     have h2 : (1 : Int) ≤ (l.length : Int) + 1 := by omega
     have h3 : (l.length : Int) ≤ (l.length : Int) + 1 := by omega
-    simp [index, sliceTo, lifoPop, h1, h2, h3]
+    simp [Stack_Pop, Stack_Len, index, sliceTo, lifoPop, h1, h2, h3]
 
 end TransEquiv.Dq
